@@ -70,6 +70,15 @@ func verifHarnessC09() {
 	verifAssert(err == nil, "C09.open-err")
 	verifAssert(db.Put(kp.keys[0], []byte{1}) == nil, "C09.preput-err")
 	verifAssert(db.Put(kp.keys[1], []byte{2}) == nil, "C09.preput2-err")
+	if verifParam("adopted") == 1 {
+		// the concurrent calls hit files that came from an ADOPTED merge (indexed through the hint file, not yet
+		// read by anybody in this session)
+		verifAssert(db.Merge() == nil, "C09.merge-err")
+		verifAssert(db.Close() == nil, "C09.close0-err")
+		db, err = Open(opts)
+		verifAssert(err == nil, "C09.reopen-err")
+		verifReach("adopted-merge")
+	}
 	calls := []int{verifParam("call0"), verifParam("call1")}
 	if verifParam("call2") > 0 {
 		calls = append(calls, verifParam("call2")-1)
